@@ -15,7 +15,10 @@ Three implementation-level oracles, all on /repo's current working tree:
                 through `model_driver`; `corpus.analyse` is a stricter python filter.
 Ties (Lean side): `lean_static` compares `wfCheck` with an independent python implementation of the same
 definitions and with `corpus.analyse`; `tie_wf` runs the model with exactly the theorem's fuel bound on the
-cases of oracle C (never `oof`, same verdict as the implementation)."""
+cases of oracle C (never `oof`, same verdict as the implementation); `validator-mirror` runs the Lean mirror of pest_meta's
+`validate_ast` (Model/Validator.lean, the `pestValidate` of theorems `C11_refuses`, `C11_validator_*`: Props/C11Validator.lean) on the
+very `ParserRule`s gen_runner hands to the real `validate_ast` (every grammar of the corpus that parses): same verdict, same
+multiset of error classes."""
 import concurrent.futures, os, random, re, subprocess, time
 from . import common, suites
 import corpus
@@ -973,6 +976,113 @@ def tie_wf(ctx, compiled, rep, cases, impl_lines, sexp_path):
     ctx.coverage.setdefault("distribution", {})["theorem_fuel"] = {"cases": len(idx), "largest_fuel_bound": maxfuel}
 
 
+
+# ---------------------------------------------------------------------------------------------
+# tie `validator-mirror`: the Lean mirror of pest_meta's validate_ast (lean/PestTyped/Model/Validator.lean) against the real one
+
+def classes_of_messages(msg):
+    """Every line of a validate_ast report -> list (multiset) of error classes."""
+    out = []
+    for line in msg.split("\n"):
+        if not line.strip():
+            continue
+        for cls, sub in ERR_CLASSES:
+            if sub in line:
+                out.append(cls)
+                break
+        else:
+            out.append("other")
+    return sorted(out)
+
+
+def tie_validator_mirror(ctx, gs, obs):
+    """For every grammar of the corpus whose text parses and converts to `ParserRule`s (gen_runner's front.rs, pest_meta's own
+    private conversion copied verbatim), three facts:
+    * validator-mirror — `pestValidate` of the Lean mirror, run by `model_driver validate <S-expression of the rules>` on the
+      very rules the REAL `pest_meta::validator::validate_ast` was called on, reports the same verdict (accept / reject) and the
+      same multiset of error classes (pest sorts its errors by source span, which the un-spanned AST cannot reproduce);
+    * validator-mirror:front-vs-consume_rules — the real validate_ast on front.rs' rules says what `consume_rules` says (same
+      messages in the same order), i.e. the rules handed to both validators are the rules the derive validates;
+    * validator-mirror:ast-vs-dump_ast is checked later for the accepted grammars (the raw AST printed from front.rs' rules is
+      the raw AST `dump_ast` prints from `consume_rules`' own result)."""
+    suites.ensure_driver()
+    todo = [g for g in gs if obs[g["gid"]].get("vfront") == "ok"]
+    lines = ["validate " + corpus.unhex(obs[g["gid"]]["vast"]) for g in todo]
+    nproc = 4
+    chunks = [lines[i::nproc] for i in range(nproc)]
+
+    def run(chunk):
+        if not chunk:
+            return []
+        p = subprocess.run([suites.DRIVER], input="\n".join(chunk) + "\n", capture_output=True, text=True)
+        return p.stdout.splitlines()
+    out = [None] * len(lines)
+    with concurrent.futures.ThreadPoolExecutor(nproc) as ex:
+        for k, res in enumerate(ex.map(run, chunks)):
+            for j, l in enumerate(res):
+                if k + j * nproc < len(out):
+                    out[k + j * nproc] = l
+    nbad = nfront = 0
+    by_class = {}
+    rejected = accepted = 0
+    for g, l in zip(todo, out):
+        o = obs[g["gid"]]
+        real_msg = corpus.unhex(o.get("vreal", "-"))
+        real = classes_of_messages(real_msg)
+        d = suites.parse_obs(l or "v=missing")
+        lean = sorted(x for x in d.get("cls", "").split(",") if x)
+        for c in real:
+            by_class[c] = by_class.get(c, 0) + 1
+        rejected += bool(real)
+        accepted += not real
+        if d.get("v") != ("reject" if real else "accept") or lean != real:
+            nbad += 1
+            if nbad <= 5:
+                ctx.tie_broken("validator-mirror", {"gid": g["gid"], "grammar": g["text"][:400], "lean": l, "pest_meta": real, "messages": real_msg[:400]})
+        # the same rules are what consume_rules validates
+        if o.get("consume") in ("ok", "err") and real_msg != o["vmsg"]:
+            nfront += 1
+            if nfront <= 5:
+                ctx.tie_broken("validator-mirror:front-vs-consume_rules", {"gid": g["gid"], "grammar": g["text"][:400], "validate_ast(front.rs rules)": real_msg[:400],
+                                                                           "consume_rules": o["vmsg"][:400]})
+    # grammars that parse but whose conversion fails must fail in consume_rules with the same message
+    for g in gs:
+        o = obs[g["gid"]]
+        if o.get("parse") == "ok" and o.get("vfront") == "err" and corpus.unhex(o.get("vreal", "-")) != o["vmsg"]:
+            nfront += 1
+            if nfront <= 5:
+                ctx.tie_broken("validator-mirror:front-vs-consume_rules", {"gid": g["gid"], "grammar": g["text"][:400], "front.rs": corpus.unhex(o.get("vreal", "-"))[:300],
+                                                                           "consume_rules": o["vmsg"][:300]})
+    n = len(todo)
+    ctx.ties["validator-mirror"] = {"cases": n, "agree": n - nbad, "observables": ["accept/reject", "multiset of validate_ast error classes"],
+                                    "rejected_by_pest_meta": rejected, "accepted_by_pest_meta": accepted, "errors_by_class": by_class}
+    nconv = sum(1 for g in gs if obs[g["gid"]].get("parse") == "ok")
+    ctx.ties["validator-mirror:front-vs-consume_rules"] = {"cases": nconv, "agree": nconv - nfront,
+                                                           "observables": ["messages of validate_ast(front.rs rules) = messages of consume_rules"]}
+    missing = [c for c in LISTED if by_class.get(c, 0) == 0]
+    if missing:
+        ctx.tie_broken("validator-mirror", {"error": "no grammar exercises the mirror's error class(es): " + ", ".join(missing)})
+
+
+def tie_validator_ast(ctx, acc, obs):
+    """validator-mirror:ast-vs-dump_ast — for every accepted grammar the raw expressions printed from front.rs' rules are the raw
+    expressions `dump_ast` prints from what `pest_meta::parser::consume_rules` returned."""
+    nbad = n = 0
+    for g in acc:
+        o = obs.get(g["gid"], {})
+        if o.get("vfront") != "ok" or "sexp" not in g:
+            continue
+        n += 1
+        va = corpus.parse_sexp(corpus.unhex(o["vast"]))
+        sx = corpus.parse_sexp(g["sexp"])
+        mine = [(r[1], r[2], r[3]) for r in va[1:]]
+        theirs = [(r[1], r[2], r[4]) for r in sx[2:]]
+        if mine != theirs:
+            nbad += 1
+            if nbad <= 5:
+                ctx.tie_broken("validator-mirror:ast-vs-dump_ast", {"gid": g["gid"], "grammar": g["text"][:400]})
+    ctx.ties["validator-mirror:ast-vs-dump_ast"] = {"cases": n, "agree": n - nbad, "observables": ["rule names, kinds, raw expressions"]}
+
 # ---------------------------------------------------------------------------------------------
 
 def check_C11(ctx):
@@ -1062,6 +1172,9 @@ def check_C11(ctx):
     ctx.evaluations += judged
     ctx.nontrivial += nontrivial
     ctx.ties["derive-vs-validator"] = {"cases": judged, "agree": judged - disagreements, "observables": ["panic", "consume_rules verdict"]}
+    t0 = time.time()
+    tie_validator_mirror(ctx, gs, obs)          # the Lean mirror of validate_ast against pest_meta's, on every grammar that parses
+    timing["validator_mirror_s"] = round(time.time() - t0, 1)
     missing = [c for c in LISTED if by_err[c] == 0]
     if missing:
         ctx.tie_broken("corpus-coverage", {"error": "no grammar of the corpus is rejected by pest's validator for: " + ", ".join(missing),
@@ -1081,6 +1194,7 @@ def check_C11(ctx):
     if bad:
         ctx.tie_broken("gen_runner-vs-dump_ast", {"error": "dump_ast rejects grammars gen_runner reports as accepted by pest's front end",
                                                   "first": [{"gid": g["gid"], "grammar": g["text"][:300], "why": g["reject"][:200]} for g in bad[:5]]})
+    tie_validator_ast(ctx, acc, obs)
     why_not, skip_rec = {}, []
     for g in acc:
         sx = corpus.parse_sexp(g["sexp"])
